@@ -579,8 +579,8 @@ impl Check for C04 {
             real: &["h3 connection driver (ConnectionInner::poll_control / poll_accept_recv / grease stream)", "h3 server and client Connection", "AcceptRecvStream, FrameStream, frame decoder, settings application"],
             stub: &["QUIC transport (SimQuic)", "executor (simexec)", "peer (script of raw uni-stream actions)", "application (accept loop / poll_close driver + a probing request)"],
             assumptions: &["unknown frame before SETTINGS, CANCEL_PUSH to a client, push streams and a RESET control stream whose type may be overtaken are left unconstrained", "two independent causes in one run admit either code"],
-            quick_runs: 100_000,
-            thorough_runs: 5_000_000,
+            quick_runs: 800_000,
+            thorough_runs: 32_000_000,
         }
     }
     fn run(&self, ctx: &RunCtx) -> RunOut {
